@@ -451,3 +451,14 @@ fn c11_k_sixty_hour_next() {
   core::mem::forget(r); core::mem::forget(h);
   kani::cover!(n == 7200, "sixty_hour_next reachable");
 }
+
+// recording constructors for the commanding-stem harness in solar.rs (C15)
+pub static mut H_ARGS: (isize, usize, usize) = (-7951, 7952, 7953);   // (stem index, slot 0 residual / 1 middle / 2 main, day index)
+pub fn rec_hide_from_index(i: isize, t: HideHeavenStemType) -> HideHeavenStem {
+  unsafe { H_ARGS.0 = i; H_ARGS.1 = match &t { HideHeavenStemType::RESIDUAL => 0, HideHeavenStemType::MIDDLE => 1, HideHeavenStemType::MAIN => 2 }; }
+  HideHeavenStem { parent: AbstractCulture::new(), heaven_stem: HeavenStem { parent: LoopTyme::from_index(one_name(), 0) }, hide_heaven_stem_type: t }
+}
+pub fn rec_hide_day_new(h: HideHeavenStem, di: usize) -> HideHeavenStemDay {
+  unsafe { H_ARGS.2 = di; }
+  HideHeavenStemDay { parent: AbstractCultureDay::new(AbstractCulture::new(), di), hide_heaven_stem: h }
+}
